@@ -6,7 +6,8 @@ tot=0
 for r in res:
     if r["error"]:
         print("ERR", r["scenario"], r["cfg"], r["error"]); print(r.get("traceback","")[-1500:])
-        continue
+        if not r["obligations"]:
+            continue
     bad=[o for o in r["obligations"] if o["status"]!="proved"]
     tot+=len(r["obligations"])
     print(r["scenario"], r["cfg"], "paths",r["paths"],"obl",len(r["obligations"]),"bad",len(bad), "wall", r["wall"])
